@@ -244,6 +244,17 @@ func evaluateTokens(msg messageInfo, tokens []string, charset string, userID int
 	for i < len(tokens) {
 		token := strings.ToUpper(tokens[i])
 
+		// Parenthesised list of search keys (one token, see parseSearchTokens):
+		// every key of the list must match
+		if len(token) >= 2 && token[0] == '(' && token[len(token)-1] == ')' {
+			inner := tokens[i][1 : len(tokens[i])-1]
+			if !evaluateTokens(msg, parseSearchTokens(inner), charset, userID, deps) {
+				return false
+			}
+			i++
+			continue
+		}
+
 		// Handle sequence set (numbers and ranges)
 		if isSequenceSet(token) {
 			if !matchesSequenceSet(msg.seqNum, token, msg.maxSeqNum) {
@@ -339,49 +350,30 @@ func evaluateTokens(msg messageInfo, tokens []string, charset string, userID int
 			i++
 
 		case "NOT":
-			// NOT <search-key>
-			if i+1 >= len(tokens) {
+			// NOT <search-key>: the complete key, which may itself be NOT,
+			// OR, a key with arguments or a parenthesised list
+			n := searchKeyLength(tokens, i+1)
+			if i+1+n > len(tokens) {
 				return false
 			}
-			i++
-			// Evaluate next token and negate result
-			nextTokens := []string{tokens[i]}
-			// Handle NOT with arguments (e.g., NOT FROM "Smith")
-			if i+1 < len(tokens) && requiresArgument(strings.ToUpper(tokens[i])) {
-				i++
-				nextTokens = append(nextTokens, tokens[i])
-			}
-			if evaluateTokens(msg, nextTokens, charset, userID, deps) {
+			if evaluateTokens(msg, tokens[i+1:i+1+n], charset, userID, deps) {
 				return false
 			}
-			i++
+			i += 1 + n
 
 		case "OR":
-			// OR <search-key1> <search-key2>
-			if i+2 >= len(tokens) {
+			// OR <search-key1> <search-key2>: two complete keys
+			n1 := searchKeyLength(tokens, i+1)
+			n2 := searchKeyLength(tokens, i+1+n1)
+			if i+1+n1+n2 > len(tokens) {
 				return false
 			}
-			i++
-			key1Tokens := []string{tokens[i]}
-			if i+1 < len(tokens) && requiresArgument(strings.ToUpper(tokens[i])) {
-				i++
-				key1Tokens = append(key1Tokens, tokens[i])
-			}
-			i++
-			// The first key and its argument may have used up the tokens
-			// (e.g. OR FROM x): the second key is missing.
-			if i >= len(tokens) {
-				return false
-			}
-			key2Tokens := []string{tokens[i]}
-			if i+1 < len(tokens) && requiresArgument(strings.ToUpper(tokens[i])) {
-				i++
-				key2Tokens = append(key2Tokens, tokens[i])
-			}
+			key1Tokens := tokens[i+1 : i+1+n1]
+			key2Tokens := tokens[i+1+n1 : i+1+n1+n2]
 			if !evaluateTokens(msg, key1Tokens, charset, userID, deps) && !evaluateTokens(msg, key2Tokens, charset, userID, deps) {
 				return false
 			}
-			i++
+			i += 1 + n1 + n2
 
 		case "BCC", "CC", "FROM", "SUBJECT", "TO", "BODY", "TEXT":
 			// These require a string argument
@@ -502,6 +494,32 @@ func evaluateTokens(msg messageInfo, tokens []string, charset string, userID int
 }
 
 // Helper functions for search criteria evaluation
+
+// searchKeyLength returns the number of tokens of the search key that starts at
+// tokens[i] (RFC 3501 search-key): NOT is followed by one key and OR by two,
+// HEADER by a field name and a string, the other keys with an argument by one
+// token; everything else, a parenthesised list included, is a single token.
+// A key that is cut short by the end of the tokens gets the length it should
+// have had, so that the caller sees that it does not fit.
+func searchKeyLength(tokens []string, i int) int {
+	if i >= len(tokens) {
+		return 1
+	}
+	token := strings.ToUpper(tokens[i])
+	switch token {
+	case "NOT":
+		return 1 + searchKeyLength(tokens, i+1)
+	case "OR":
+		n1 := searchKeyLength(tokens, i+1)
+		return 1 + n1 + searchKeyLength(tokens, i+1+n1)
+	case "HEADER":
+		return 3
+	}
+	if requiresArgument(token) {
+		return 2
+	}
+	return 1
+}
 
 func isSequenceSet(token string) bool {
 	// Check if token looks like a sequence set (e.g., "1", "2:4", "1:*", "*", "1,3:5")
